@@ -184,7 +184,7 @@ public:
             return {pos, lo, hi};
         }
 
-        auto p = int64_t(root_slope * (k - first_key)) + root_intercept;
+        auto p = internal::saturating_cast(root_slope * (k - first_key), int64_t(1) << 62) + root_intercept;
         auto pos = std::min<size_t>(p > 0 ? size_t(p) : 0ull, root_range);
 
         for (const auto &level : levels) {
@@ -330,7 +330,7 @@ struct CompressedPGMIndex<K, Epsilon, EpsilonRecursive, Floating>::CompressedLev
     }
 
     inline size_t operator()(const std::vector<Floating> &slopes, size_t i, K k) const {
-        auto pos = int64_t(get_slope(slopes, i) * (k - keys[i])) + get_intercept(i);
+        auto pos = internal::saturating_cast(get_slope(slopes, i) * (k - keys[i]), int64_t(1) << 62) + get_intercept(i);
         return pos > 0 ? size_t(pos) : 0ull;
     }
 
@@ -526,7 +526,7 @@ protected:
         SegmentData(Segment &s) : slope(s.slope), intercept(s.intercept) {}
 
         inline size_t operator()(const K &origin, const K &k) const {
-            auto pos = int64_t(slope * (k - origin)) + intercept;
+            auto pos = internal::saturating_cast(slope * (k - origin), int64_t(1) << 62) + intercept;
             return pos > 0 ? size_t(pos) : 0ull;
         }
     };
